@@ -17,7 +17,9 @@
      rf_pat is a pointer id, [penv] maps pointer ids to prefixes.
    * nil dereferences are the explicit outcome [Panic].
 
-   No proofs in this file. *)
+   The evaluation functions are parametrised by the matcher function (suffix _w) so that the same
+   engine can be instantiated with the net functions regenerated from the Go source
+   (Proofs/PolicyNetLink.v).  No proofs in this file. *)
 From Coq Require Import List NArith Bool.
 Import ListNotations.
 Local Open Scope N_scope.
@@ -32,8 +34,8 @@ Definition two64 : N := 18446744073709551616.
 Definition max32 : N := 4294967295.
 Definition max64 : N := 18446744073709551615.
 
-(* uint8 subtraction a - b for a, b <= 255 *)
-Definition u8sub (a b : N) : N := (a + 256 - b) mod 256.
+(* uint8 subtraction a - b (a <= 255; b is reduced to a uint8 first, so the definition is total) *)
+Definition u8sub (a b : N) : N := (a + 256 - b mod 256) mod 256.
 (* uint32(MaxUint32 << s), MaxUint64 << s *)
 Definition shl32 (s : N) : N := (N.shiftl max32 s) mod two32.
 Definition shl64 (s : N) : N := (N.shiftl max64 s) mod two64.
@@ -71,14 +73,17 @@ Definition pfx_contains (p x : prefix) : bool :=
 
 Inductive matcher := MExact | MOrLonger | MLonger | MRange (mn mx : N).
 
-(* ExactMatcher / OrLongerMatcher / LongerMatcher / InRangeMatcher .Match(pattern, prefix) *)
-Definition matcher_match (m : matcher) (pat p : prefix) : bool :=
+(* ExactMatcher / OrLongerMatcher / LongerMatcher / InRangeMatcher .Match(pattern, prefix),
+   parametrised by the two net.Prefix methods they call (Equal, Contains) *)
+Definition matcher_match_w (ne nc : prefix -> prefix -> bool) (m : matcher) (pat p : prefix) : bool :=
   match m with
-  | MExact => pfx_equal pat p
-  | MOrLonger => pfx_equal pat p || pfx_contains pat p
-  | MLonger => pfx_contains pat p && (pf_len pat <? pf_len p)
-  | MRange mn mx => (pfx_equal pat p || pfx_contains pat p) && (mn <=? pf_len p) && (pf_len p <=? mx)
+  | MExact => ne pat p
+  | MOrLonger => ne pat p || nc pat p
+  | MLonger => nc pat p && (pf_len pat <? pf_len p)
+  | MRange mn mx => (ne pat p || nc pat p) && (mn <=? pf_len p) && (pf_len p <=? mx)
   end.
+
+Definition matcher_match : matcher -> prefix -> prefix -> bool := matcher_match_w pfx_equal pfx_contains.
 
 Definition matcher_equal (m x : matcher) : bool :=
   match m, x with
@@ -151,12 +156,12 @@ Fixpoint any_of {A : Type} (f : A -> bool) (l : list A) : bool :=
   end.
 
 (* PrefixList.Matches (after the fix: uses the list's matcher) *)
-Definition pl_matches (l : prefix_list) (p : prefix) : bool :=
-  any_of (fun a => matcher_match (pl_m l) a p) (pl_allowed l).
+Definition pl_matches_w (mm : matcher -> prefix -> prefix -> bool) (l : prefix_list) (p : prefix) : bool :=
+  any_of (fun a => mm (pl_m l) a p) (pl_allowed l).
 
 (* RouteFilter.Matches *)
-Definition rf_matches (env : penv) (f : route_filter) (p : prefix) : bool :=
-  matcher_match (rf_m f) (env (rf_pat f)) p.
+Definition rf_matches_w (mm : matcher -> prefix -> prefix -> bool) (env : penv) (f : route_filter) (p : prefix) : bool :=
+  mm (rf_m f) (env (rf_pat f)) p.
 
 (* CommunityFilter.Matches (after the fix: nil list does not match) *)
 Definition cf_matches (c : N) (coms : option (list N)) : bool :=
@@ -174,11 +179,11 @@ Definition lcf_matches (c : lcomm) (coms : option (list lcomm)) : bool :=
 
 Definition is_nil {A : Type} (l : list A) : bool := match l with [] => true | _ => false end.
 
-Definition matches_prefix_lists (c : cond) (p : prefix) : bool :=
-  if is_nil (c_pls c) then true else any_of (fun l => pl_matches l p) (c_pls c).
+Definition matches_prefix_lists_w (mm : matcher -> prefix -> prefix -> bool) (c : cond) (p : prefix) : bool :=
+  if is_nil (c_pls c) then true else any_of (fun l => pl_matches_w mm l p) (c_pls c).
 
-Definition matches_route_filters (env : penv) (c : cond) (p : prefix) : bool :=
-  if is_nil (c_rfs c) then true else any_of (fun f => rf_matches env f p) (c_rfs c).
+Definition matches_route_filters_w (mm : matcher -> prefix -> prefix -> bool) (env : penv) (c : cond) (p : prefix) : bool :=
+  if is_nil (c_rfs c) then true else any_of (fun f => rf_matches_w mm env f p) (c_rfs c).
 
 Definition matches_community_filters (c : cond) (pa : path) : bool :=
   if is_nil (c_cfs c) then true else
@@ -198,9 +203,9 @@ Definition matches_protocols (c : cond) (pa : path) : bool :=
   if is_nil (c_protos c) then true else any_of (fun t => t =? pa_type pa) (c_protos c).
 
 (* TermCondition.Matches *)
-Definition cond_matches (env : penv) (c : cond) (p : prefix) (pa : path) : bool :=
-  matches_prefix_lists c p &&
-  matches_route_filters env c p &&
+Definition cond_matches_w (mm : matcher -> prefix -> prefix -> bool) (env : penv) (c : cond) (p : prefix) (pa : path) : bool :=
+  matches_prefix_lists_w mm c p &&
+  matches_route_filters_w mm env c p &&
   matches_community_filters c pa &&
   matches_large_community_filters c pa &&
   matches_protocols c pa.
@@ -347,48 +352,52 @@ Fixpoint process_actions (acts : list action) (st : store) (r : nat) : res (stor
   end.
 
 (* Term.Process *)
-Definition term_process (env : penv) (t : term) (p : prefix) (st : store) (r : nat) : res (store * ares) :=
+Definition term_process_w (mm : matcher -> prefix -> prefix -> bool) (env : penv) (t : term) (p : prefix) (st : store) (r : nat) : res (store * ares) :=
   match nth_error st r with
   | None => Panic
   | Some pa =>
     if is_nil (t_from t) then process_actions (t_then t) st r
-    else if any_of (fun f => cond_matches env f p pa) (t_from t) then process_actions (t_then t) st r
+    else if any_of (fun f => cond_matches_w mm env f p pa) (t_from t) then process_actions (t_then t) st r
     else cont st r
   end.
 
 (* Filter.Process *)
-Fixpoint filter_process (env : penv) (f : filter) (p : prefix) (st : store) (r : nat) : res (store * ares) :=
+Fixpoint filter_process_w (mm : matcher -> prefix -> prefix -> bool) (env : penv) (f : filter) (p : prefix) (st : store) (r : nat) : res (store * ares) :=
   match f with
   | [] => cont st r
   | t :: f' =>
-    match term_process env t p st r with
+    match term_process_w mm env t p st r with
     | Panic => Panic
     | Ok (st1, tr) =>
       if ar_term tr then Ok (st1, mkR (ar_path tr) (ar_reject tr) (ar_term tr))
-      else filter_process env f' p st1 (ar_path tr)
+      else filter_process_w mm env f' p st1 (ar_path tr)
     end
   end.
 
-Fixpoint chain_loop (env : penv) (c : chain) (p : prefix) (st : store) (mp : nat) : res (store * nat * bool) :=
+Fixpoint chain_loop_w (mm : matcher -> prefix -> prefix -> bool) (env : penv) (c : chain) (p : prefix) (st : store) (mp : nat) : res (store * nat * bool) :=
   match c with
   | [] => Ok (st, mp, false)
   | f :: c' =>
-    match filter_process env f p st mp with
+    match filter_process_w mm env f p st mp with
     | Panic => Panic
     | Ok (st1, fr) =>
       if ar_term fr then Ok (st1, ar_path fr, ar_reject fr)
-      else chain_loop env c' p st1 (ar_path fr)
+      else chain_loop_w mm env c' p st1 (ar_path fr)
     end
   end.
 
 (* Chain.Process(p, pa) for a non-nil pa: result store, returned pointer, reject *)
-Definition process (env : penv) (c : chain) (p : prefix) (st : store) (r : nat) : res (store * nat * bool) :=
+Definition process_w (mm : matcher -> prefix -> prefix -> bool) (env : penv) (c : chain) (p : prefix) (st : store) (r : nat) : res (store * nat * bool) :=
   match nth_error st r with
   | None => Panic
   | Some pa =>
     let '(st1, mp) := alloc st pa in           (* mp := pa.Copy() *)
-    chain_loop env c p st1 mp
+    chain_loop_w mm env c p st1 mp
   end.
+
+(* the policy engine with the matchers of this file (Prefix.Equal / Prefix.Contains above) *)
+Definition cond_matches : penv -> cond -> prefix -> path -> bool := cond_matches_w matcher_match.
+Definition process : penv -> chain -> prefix -> store -> nat -> res (store * nat * bool) := process_w matcher_match.
 
 (* ------------------------------------------------------------------ Equal *)
 
